@@ -144,6 +144,14 @@ check("C19", "fault_enumeration",
       "Trusted: the fresh-subprocess canary table as 'fresh interpreter' reference; faults are injected through user code only.",
       "stateful / model-based property testing with fault injection (Hypothesis-drawn histories, invariants after every step)", "DESIGN.md C19")
 
+check("C20", "exploration",
+      "Generated sets of 2-4 thread programs (first-order, nested with closures, mixed-mode, HVP, jacobian, depth 3) with yield points at trace "
+      "entry, between operations, before trace exit and between API calls, run under a drawn schedule by a deterministic one-thread-at-a-time "
+      "scheduler; each thread's result must be bitwise equal to its solo run. Plus a bounded-exhaustive sweep of all schedules of length 8/12 "
+      "for canonical 2-thread pairs.",
+      "The scheduler owns interleavings at yield-point granularity (user code); pre-emption inside one autograd-internal statement is not explored.",
+      "property-based testing over thread schedules (Hypothesis-drawn schedules on a deterministic scheduler) plus bounded-exhaustive schedule enumeration", "DESIGN.md C20")
+
 NOT_YET = {}
 
 
